@@ -66,6 +66,9 @@ class GridRun:
     def steps(self, model):
         out = []
         for op, args in self.calls:
+            if op == '@raw':
+                out.append(args)
+                continue
             a = [jarg(model, x) for x in args]
             if op in DROP_LAST:
                 a = a[:-1]
